@@ -114,6 +114,15 @@ func C09Worlds(c *Ctx, sz sizes) ([]*World, error) {
 		}
 		ws = append(ws, dw)
 	}
+	// package directories whose names extend each other as strings (api, api/v1, apiext):
+	// recursive patterns and their order must select the same packages (recursiveFirstVariants)
+	{
+		s := &LSpec{UserPkgs: map[string]string{}, PkgNames: map[string]string{"api": "api", "api/v1": "v1", "apiext": "apiext"}}
+		for ci, d := range []string{"api", "api/v1", "apiext"} {
+			s.Convs = append(s.Convs, LConv{Dir: d, File: "conv.go", Kind: "interface", Name: fmt.Sprintf("P%c", 'a'+ci), Version: 1})
+		}
+		ws = append(ws, s.World("prefix-sibling-packages"))
+	}
 	// a directory sits where one of several output files belongs (prior tree state): the run
 	// fails at that file; what it reports and which other files it wrote must not follow map order
 	for k := 0; k < 3; k++ {
